@@ -51,6 +51,8 @@ def job_of_case(cs):
     else:
         j.update({"method": cs["learner"].split(":")[1], "n_jobs": cs["n_jobs"],
                   "n_outcomes_per_job": cs["n_outcomes_per_job"]})
+        if cs.get("events_per_file"):
+            j["events_per_file"] = cs["events_per_file"]
         if cs.get("select"):
             j["select"] = cs["select"]
     return j
@@ -67,20 +69,23 @@ def gen_cases(rng, n_dict, n_par, thorough):
                               max_cues=rng.choice([2, 4, 12]), max_outs=rng.choice([1, 3, 6]),
                               dups=dups, file_form=(form == "file"))
         cue_names = sorted({c for cs_, _ in es for c in cs_})
-        p = rwlib.gen_params(rng, per_cue=(k % 2 == 1), cue_names=cue_names)
+        p = rwlib.gen_params(rng, per_cue=((k // 4) % 2 == 1), cue_names=cue_names)
         cases.append({"learner": "dict_ndl", "es": es, "pol": pol, "p": p,
                       "as_file": form == "file", "as_generator": form == "generator",
                       "make_data_array": k % 5 == 0})
     for k in range(n_par):
         pol = [0, 1, 2][k % 3]
         dups = pol in (1, 2)
-        es = rwlib.gen_events(rng, rng.choice([1, 2, 3, 5, 8, 13, 40 if thorough else 17]),
+        es = rwlib.gen_events(rng, rng.choice([1, 2, 3, 5, 8, 13, 40 if thorough else 17, 24]),
                               n_cue_alpha=rng.choice([3, 5, 9, 24]), n_out_alpha=rng.choice([1, 3, 6, 13, 21]),
                               max_cues=rng.choice([2, 4, 12]), max_outs=rng.choice([1, 3, 6]),
                               dups=dups, file_form=True)
         p = rwlib.gen_params(rng)
         cases.append({"learner": "ndl:" + ["threading", "openmp"][k % 2], "es": es, "pol": pol, "p": p,
-                      "n_jobs": rng.choice([1, 2, 3, 5]), "n_outcomes_per_job": rng.choice([1, 2, 3, 10])})
+                      "n_jobs": rng.choice([1, 2, 3, 5]), "n_outcomes_per_job": rng.choice([1, 2, 3, 10]),
+                      # several temporary chunk files (more than 10 for the long sequences): the chronological
+                      # order of the events must survive chunking
+                      "events_per_file": rng.choice([2, 3, 10000000, 10000000])})
     # events with more than 1024 cues / outcomes through both parallel learners and dict_ndl
     for k, learner in enumerate(["ndl:threading", "ndl:openmp", "dict_ndl"]):
         ncue = rng.randint(1030, 1400)
@@ -107,7 +112,8 @@ def describe(cs):
             "p": {k: (str(v) if not isinstance(v, dict) else {a: str(b) for a, b in list(v.items())[:4]})
                   for k, v in cs["p"].items()},
             "events": es if len(str(es)) < 600 else str(es)[:600] + "...",
-            "n_jobs": cs.get("n_jobs"), "n_outcomes_per_job": cs.get("n_outcomes_per_job")}
+            "n_jobs": cs.get("n_jobs"), "n_outcomes_per_job": cs.get("n_outcomes_per_job"),
+            "events_per_temporary_file": cs.get("events_per_file")}
 
 
 def check_cases(ctx, cases, correspondence="X-rw", theorems=("C01_dict",)):
